@@ -66,8 +66,8 @@ func strOpts(a, b string) [][]string {
 func c02Filters() []*mocrelay.ReqFilter {
 	var fs []*mocrelay.ReqFilter
 	kindOpts := [][]int64{nil, {}, {1}, {7}, {1, 7}}
-	sinceOpts := []*int64{nil, p64(10), p64(20), p64(21)}
-	untilOpts := []*int64{nil, p64(9), p64(20), p64(30)}
+	sinceOpts := []*int64{nil, p64(0), p64(10), p64(20), p64(21)} // 0 is a bound like any other, not "absent"
+	untilOpts := []*int64{nil, p64(0), p64(9), p64(20), p64(30)}
 	for _, ids := range strOpts(c02IDA, c02IDB) {
 		for _, au := range strOpts(c02P, c02Q) {
 			for _, ks := range kindOpts {
